@@ -275,8 +275,22 @@ func (w *world) arm(e *midEvent) {
 			for i := 0; i < e.k; i++ {
 				w.topo.Vacuum(grpc.WithInsecure(), w.sp.threshold, 0)
 			}
-			if sent := w.f.logLen() - before; sent > 0 {
-				w.overlap = fmt.Sprintf("%d RPC(s) were sent by Vacuum calls that arrived while the round was still waiting for s%d's %s answer: a second round ran inside the first", sent, e.at, e.phase)
+			// What arrived meanwhile and cannot belong to the round in progress: that round has, while this
+			// handler is held, at most one RPC of this same phase under way to each *other* replica of this volume.
+			log := w.f.snapshot()
+			var foreign []string
+			for i := before; i < len(log); i++ {
+				x := log[i]
+				dup := false
+				for _, y := range log[:i] {
+					dup = dup || y.vid == x.vid && y.server == x.server && y.phase == x.phase
+				}
+				if x.vid != e.vid || x.phase != e.phase || x.server == e.at || dup {
+					foreign = append(foreign, x.String())
+				}
+			}
+			if len(foreign) > 0 {
+				w.overlap = fmt.Sprintf("RPCs were sent by Vacuum calls that arrived while the round was still waiting for s%d's %s answer (a second round ran inside the first): %s", e.at, e.phase, strings.Join(foreign, " "))
 			}
 			for i, srv := range vol.replicas {
 				if outer[i] != nil {
